@@ -218,6 +218,18 @@ pub fn encode_trace(trace: &[TraceOp]) -> Result<Encoded, String> {
                 e.uncomments += 1;
                 e.low_level_out.push('\n');
             }
+            "reference" => {
+                // the token content just reported refers to this byte range of the original code
+                if t.detail == 1 {
+                    if let Some(last) = e.items.last_mut() {
+                        if last.starts_with('K') {
+                            if let Some(pos) = last.find(':') {
+                                last.insert_str(pos, &format!("@{}", t.text));
+                            }
+                        }
+                    }
+                }
+            }
             "into_string" => {
                 e.final_line = Some(t.detail);
                 e.final_commenting = Some(t.text == "1");
@@ -1714,7 +1726,18 @@ fn replay_known_findings(report: &mut Report) {
                 if out == code {
                     // repaired: say nothing
                 } else if out == wrong {
-                    report.known_finding(&id, &format!("{:?} is written as {:?}", code, out));
+                    if f["status"] == "fixed" {
+                        // a repaired finding excuses nothing: failing again is a regression
+                        report.violation(Violation {
+                            kind: "oracle".into(),
+                            check: "fixed-finding-regressed".into(),
+                            what: format!("{} (fixed by {}): {:?} is written as {:?} again", id, f["commit"], code, out),
+                            input: json!({"kind": "source", "code": code, "config": config}),
+                            failing_input_found: true,
+                        });
+                    } else {
+                        report.known_finding(&id, &format!("{:?} is written as {:?}", code, out));
+                    }
                 } else {
                     report.violation(Violation {
                         kind: "finding-changed".into(),
